@@ -107,7 +107,9 @@ def correspondence(rep, ctx):
                 ex = math.log10(lo) + k * (math.log10(hi) - math.log10(lo)) / (n - 1)
                 if abs(float(t) - 10.0 ** ex) > 1e-13 * abs(10.0 ** ex):
                     return False
-        ends_ok = same(tp[0], lo, 2) and same(tp[-1], hi, 4)
+        # a linear grid starts and ends exactly where it was told; a logarithmic one is 10**(log10 x) at both ends, which is
+        # x only to a few ulp (np.logspace)
+        ends_ok = (same(tp[0], lo, 2) and same(tp[-1], hi, 4)) if scale == "linear" else (same(tp[0], lo, 32) and same(tp[-1], hi, 32))
         return ends_ok
 
     shared_fig, shared_ax = plt.subplots()
